@@ -45,12 +45,27 @@ def equinox_cases():
     return cases
 
 
+def polar_cases():
+    """Days without sunrise/sunset (and their edges): Dhuhr is still reported and must still be the transit."""
+    eph = []
+    for lat in (67.8, 69.4, 75.0, 80.0, 89.9, -68.0, -78.5, -89.9):
+        for (y, mo, d) in ((2023, 11, 20), (2023, 12, 5), (2023, 12, 21), (2024, 1, 1), (2024, 1, 20), (2100, 11, 30), (2023, 5, 25), (2023, 6, 21), (2023, 7, 15), (1700, 12, 25)):
+            for lon, gmt in ((88.2, 7.0), (-69.2, -2.0)):
+                eph.append({"api": "k_ephemeris", "date": datetime.date(y, mo, d).isoformat(), "gmt": gmt, "lat": lat, "lon": lon, "elev": 0.0})
+    cases = []
+    for e, t in zip(eph, kreplay.run(eph)):
+        if "astros" in t:
+            cases.append({"api": "k_get_hours", "lat": e["lat"], "lon": e["lon"], "elev": 0.0, "astros": t["astros"], "from": e,
+                          "params": {"method": "Isna", "ext": "None", "round": "None"}})
+    return cases
+
+
 def confirm(rep, results):
     cands = [c for x in results for c in x["cands"]]
     thorough = getattr(rep, "tier", "quick") == "thorough"
     if not cands and not any(x["inconclusive"] for x in results) and not thorough:
         return
-    cases = transit_cases(cands) + equinox_cases() + kp.seam_cases(60) + kp.random_cases(4000 if thorough else 200, 60, int(os.environ.get("VERIF_SEED", "0") or 0))
+    cases = transit_cases(cands) + equinox_cases() + polar_cases() + kp.seam_cases(60) + kp.random_cases(4000 if thorough else 200, 60, int(os.environ.get("VERIF_SEED", "0") or 0))
     outs = kreplay.run(cases)
     found = {}
     for c, o in zip(cases, outs):
